@@ -22,7 +22,7 @@ func runC18(c *Ctx) error {
 		lens = append(lens, n)
 	}
 	// large buffers: every power of two up to 1 MiB (4 MiB thorough) +- small residues, plus random sizes
-	top := 20
+	top := 16
 	if !c.quick() {
 		top = 22
 	}
@@ -30,7 +30,7 @@ func runC18(c *Ctx) error {
 		lens = append(lens, 1<<e-1-c.Rng.Intn(7), 1<<e, 1<<e+1+c.Rng.Intn(70))
 	}
 	for i := 0; i < 6; i++ {
-		lens = append(lens, 1000+c.Rng.Intn(300000))
+		lens = append(lens, 1000+c.Rng.Intn(60000))
 	}
 	for _, n := range lens {
 		offs := []int{n % 9, (n*5 + 3) % 9}
